@@ -30,6 +30,32 @@ CLAIMS = {
              "on the real code (one run buffer, one run per message, process whole and byte-wise) and every recorded event is validated "
              "against the abstract relation by the trace specification TraceScpi under TLC.",
         design_ref="DESIGN.md section 4 C02", note=TRUST, technique=TV),
+    "C03": dict(
+        category="model_checking",
+        text="MCScpiValues checks for every short literal over three alphabets and all 15 parameter types that the conversion the code performs "
+             "(ImplConv, mirroring value.rs) is among the outcomes the property allows (AllowedConv), that no allowed delivery is out of range, that "
+             "core's from_str_radix algorithm transcribed on miniature widths accepts exactly the plain in-range literals with their exact value, and "
+             "that the digit-sequence arithmetic used for 64-bit bounds equals integer arithmetic. On the real code ~12k messages (bounds of every "
+             "integer type in four radices, 13 decimal spellings, all short literals, every data kind into every type, the 0..12 x 0..10 parameter-count "
+             "matrix, an unfit literal at every position) are run through macro-generated handlers and each recorded outcome is validated by TraceScpi; "
+             "float literals are additionally checked bit-exactly.",
+        design_ref="DESIGN.md section 4 C03",
+        note=TRUST + " Binary floating point is outside TLC's reach: for f32/f64 the TLA+ spec decides kind, arity and error class, while the bit "
+             "pattern is decided by exact rational arithmetic in bin/vlib/floats.py (independent of Rust's dec2flt).",
+        technique=TV),
+    "C04": dict(
+        category="model_checking",
+        text="MCScpiResponse checks Decodes(Encode(v), v) and injectivity (no other value of the same shape decodes from the same bytes) over a "
+             "universe of integers, booleans, strings with quotes/commas/newlines, blocks and tuples; the pre-repair quoting is a failing negative "
+             "control. On the real code every response type (all integer widths at their extremes, strings in &str/heapless::String/String, character "
+             "data, blocks at length-digit boundaries, tuples of 2-4, slices, heapless::Vec, nested, Error values, unit) is produced by generated query "
+             "handlers through the pass-through writer, std Vec, heapless::Vec of three capacities and process; TraceScpi requires exactly one response "
+             "that decodes to the returned value, then NL and flush, in execution order, identical bytes for every writer with room, and no output for "
+             "commands, failed queries and undefined headers. f32/f64 responses (special values, powers of two, seeded random bit patterns) are decoded "
+             "bit-exactly.",
+        design_ref="DESIGN.md section 4 C04",
+        note=TRUST + " For floats the TLA+ spec pins only the syntax; the bit-exact decode is exact rational arithmetic in bin/vlib/floats.py.",
+        technique=TV),
     "C05": dict(
         category="model_checking",
         text="MCScpiProcess checks the offset invariant 0<=proc<=rd<=rend<=N and that a read is always offered space, for every chunking and "
@@ -64,6 +90,16 @@ CLAIMS = {
              "1..2 of compound messages that continue with a relative header, run whole and through process under every split point; "
              "TraceScpi requires verbatim delivery, no error, and the same units executed as without the embedded newline.",
         design_ref="DESIGN.md section 4 C08", note=TRUST, technique=TV),
+    "C09": dict(
+        category="model_checking",
+        text="MCErrorQueue checks the queue as a state machine for K=1..4: bounded, a push with room appends exactly the error, a push on a full "
+             "queue replaces exactly the newest entry by -350 (older entries intact), a pop removes exactly the oldest; two mutants (drop oldest, drop "
+             "new silently) are failing negative controls. MCScpiRun checks end to end, for interfaces of capacity K, every grouping of faults, custom "
+             "errors, NEXT?/COUNt? queries and commands into messages. On the real code every operation sequence of depth D on StaticErrorQueue<K> "
+             "directly (count observed after every step, queue drained at the end), seeded sequences incl. K=10, all enumerated histories and seeded "
+             "sessions (one buffer, per message, through process) are validated by TraceScpi: NEXT? answers number,\"description\" of the oldest entry "
+             "(0,\"\" when empty), COUNt? the number of entries.",
+        design_ref="DESIGN.md section 4 C09", note=TRUST, technique=TV),
     "C10": dict(
         category="model_checking",
         text="MCScpiProcess (with the EnvFail action) checks Answered (nothing owed and res_buf empty at every read) and DoneIsError. On the "
